@@ -55,6 +55,7 @@ def qvec(nodes, labels, lab, exporters=True):
             from anytree.exporter import DictExporter, DotExporter, JsonExporter, MermaidExporter, UniqueDotExporter
 
             v["dot"] = _safe(lambda: list(DotExporter(nd, filter_=hide_a, maxlevel=3)))
+            v["dot_plain"] = _safe(lambda: (list(DotExporter(nd)), list(MermaidExporter(nd)), list(UniqueDotExporter(nd, maxlevel=2))))
             v["udot"] = _safe(lambda: list(UniqueDotExporter(nd, stop=stop_b)))
             v["mermaid"] = _safe(lambda: list(MermaidExporter(nd, stop=stop_b, filter_=hide_a)))
             v["dict"] = _safe(lambda: repr(DictExporter(maxlevel=2).export(nd)))
